@@ -120,7 +120,7 @@ def shift (s : Ser α) (by_ : ShiftBy) (neutral : Option α) : R (Ser α) :=
   | .tty => s.shiftRef (refTty s.freq) neutral
 
 /-- `Series._binop(other, func, new=self)` for a NaN-strict `func`, on the encompassing row range, then trimmed.
-(`other` is a shifted copy of `self` here, so frequencies cannot differ; an empty `self` is rejected earlier.) -/
+(`other` is a shifted copy of `self` here, so frequencies cannot differ; two empty series give the empty series.) -/
 def binop (g : Option α → Option α → Option α) (a b : Ser α) : Ser α :=
   trim ⟨a.freq, min a.lo b.lo, max a.hi b.hi, fun t => g (a.get t) (b.get t)⟩
 
@@ -189,8 +189,7 @@ def ChangeKind.fixedShift : ChangeKind → Option Int
 /-- `Inlay.temporal_change(by, func, neutral_value=…)`: `other = self.copy(); other.shift(by, …); self._binop(other, func)` -/
 def temporalChange (S : Sym α) (kind : ChangeKind) (by_ : ShiftBy) (s : Ser α) : R (Ser α) :=
   if !validShift by_ then throw .badInput
-  else if s.isEmpty then throw .badInput          -- the encompassing span of two empty series raises
-  else do
+  else do          -- (an empty series passes through: shifting and `_binop` of two empty series give the empty series)
     let other ← s.shift by_ (kind.neutral.map (fun (n : Int) => (n : α)))
     pure (Ser.binop (lift2 (kind.dom S) (kind.fn S (factorOf s.freq))) s other)
 
